@@ -209,6 +209,16 @@ def run(ctx: Ctx):
     from .c13 import missing_values_discipline
 
     missing_values_discipline(ctx, "R03.c")
+    check_template_keywords(ctx, "R03.a")
+    from .c18 import check_generated_model
+
+    check_generated_model(ctx, "R03.a")
+
+    ctx.rule("R03.e", "the front end the JAX backend shares with the others builds what the model text defines: operator table, fold direction, precedence ladder, function vocabulary, conditional builders (the rules of R01.a-e)", floor=40)
+    from .c01 import front_end
+
+    front_end(ctx, {k: "R03.e" for k in "abcde"}, declare=False)
+
     ctx.rule("R03.d", "every scheme offered for the jax backend receives the keyword arguments its builder takes (delta, stiff_states)", floor=4)
     from . import common as _c
 
@@ -235,3 +245,48 @@ def _branches(v, conds=()):
 
         return _branches(v[2], conds + tuple(cs)) + _branches(v[3], conds + (av.mk_not(c),))
     return [(conds, v)]
+
+
+def check_template_keywords(ctx: Ctx, rule: str):
+    """Every keyword the generator methods hand to `self.template.method(...)` is a named parameter of the jax
+    template's `method` and its text is part of what the template returns: a keyword that only lands in `**kwargs`
+    is silently dropped (the block it carries - unpacking of missing variables, shape information - vanishes from
+    every jax function while the numpy module stays correct)."""
+    from sa import av as _av
+
+    from . import util
+
+    sm = ctx.sm
+    tf = sm.func("templates/jax.py", "method")
+    a = tf.node.args
+    named = {x.arg for x in a.posonlyargs + a.args + a.kwonlyargs}
+    passed: dict[str, str] = {}
+    cgc = sm.cls("codegen/base.py", "CodeGenerator")
+    for mname in ("rhs", "monitor_values", "missing_values", "scheme"):
+        f = cgc.methods.get(mname)
+        if f is None:
+            continue
+        v = util.value_of(ctx, f)
+        for m_ in _av.find_all(v, "mcall"):
+            if m_[2] == "method" and _av.show(m_[1]).endswith("template"):
+                for k, _x in m_[4]:
+                    passed.setdefault(k, mname)
+    if not passed:
+        ctx.undecided(rule, tf.key("keywords"), "the template.method(...) calls of the generator methods are not found in what they compute", tf.where())
+        return
+    tv = util.value_of(ctx, tf)
+    # keywords the jax template does not need (one line of reason each): its result is a fresh array built from the
+    # _values_<i> names, so the name, allocation and shape of a result buffer do not exist there
+    not_needed = {"return_name": "no result buffer: the return value is numpy.array([_values_0, ...])", "values_type": "no allocation of a result buffer", "shape_info": "the shape is that of the stacked _values_<i>"}
+    for k, mname in sorted(passed.items()):
+        key = tf.key(f"keyword::{k}")
+        if k in not_needed and k not in named:
+            ctx.ok(rule, key, f"`{k}` is not needed by the jax template: {not_needed[k]}", tf.where())
+            continue
+        if k not in named:
+            ctx.fail(rule, key, f"CodeGenerator.{mname} passes `{k}=` to the method template, but templates/jax.py::method has no parameter of that name: the text is swallowed by **kwargs and missing from every generated jax function", tf.where())
+        elif _av.has_unk(tv):
+            ctx.undecided(rule, key, "what the jax method template returns is not understood", tf.where())
+        else:
+            used = any(x[1] == k or x[1].startswith(k + ".") for x in _av.find_all(tv, "sym"))
+            ctx.check(used, rule, key, f"`{k}` is part of the generated text", f"templates/jax.py::method accepts `{k}` but never uses it in the text it returns", tf.where())
